@@ -62,6 +62,7 @@ type runResult struct {
 	Nontrivial map[string]bool   `json:"nontrivial"`
 	Digests    int               `json:"digests"`
 	Sample     json.RawMessage   `json:"sample,omitempty"`
+	Incidental []*violation      `json:"incidental,omitempty"`
 }
 
 type job struct {
@@ -605,6 +606,15 @@ func cmdCheck(spec propSpec, tier string) int {
 			}
 		}
 	}
+	for _, r := range a.results {
+		for _, v := range r.Incidental {
+			if f := matchOpen(findings, v); f != nil {
+				incidental["known:"+f.Property+":"+f.Signature]++
+			} else {
+				incidental[v.Prop+":"+v.Sig]++
+			}
+		}
+	}
 	exit := 0
 	var reported []string
 	if len(own) > 0 {
@@ -773,6 +783,7 @@ type replayFile struct {
 	Seed      uint64          `json:"seed"`
 	Profile   string          `json:"profile"`
 	Scale     int             `json:"scale"`
+	Target    string          `json:"target"`
 	Engine    string          `json:"engine"`
 	Config    json.RawMessage `json:"config"`
 	Tape      [][]uint32      `json:"tape"`
